@@ -240,6 +240,9 @@ class Ctx:
             obj, args = self.operand(node)
             if node[1] == 'raw':
                 v = numpy.broadcast_to(obj, (self.npoints, *obj.shape))
+            elif 0 in node[2]:
+                # an empty operand has no values to ask for (and nutils cannot evaluate it on a product sample: raise:zero-length-result)
+                v = numpy.zeros((self.npoints, *node[2]), dtype=NPTYPE[node[3]])
             else:
                 v = numpy.asarray(self.sample.eval(obj, arguments=args))
                 if v.shape != (self.npoints, *node[2]):
